@@ -19,17 +19,17 @@ import (
 // ---------------------------------------------------------------------------
 
 type ttModelEntry struct {
-	key          uint64
-	move         uint32 // 16 bit move part
-	value        int
-	depth        int
-	typ          int
-	agedSince    bool // AgeEntries was called since this entry was stored
-	probedSince  bool // probed since the last AgeEntries
+	key         uint64
+	move        uint32 // 16 bit move part
+	value       int
+	depth       int
+	typ         int
+	agedSince   bool // AgeEntries was called since this entry was stored
+	probedSince bool // probed since the last AgeEntries
 	// netAged: ageing rounds since the store that have not been taken back by
 	// a later probe hit (a hit makes the entry one round younger; a hit on an
 	// entry that is not aged earns no credit for later rounds)
-	netAged int
+	netAged      int
 	storedAtStep int
 }
 
